@@ -112,6 +112,10 @@ func buildQueryIndex(c *Ctx) *bsiCase {
 		shape = "mixed"
 	}
 	n := 2 + r.Intn(24)
+	if r.Chance(0.04) {
+		shape = "empty" // a stored map without any column (the statement's "empty")
+		n = 0
+	}
 	lo, hi := bc.lo, bc.hi
 	switch shape {
 	case "nonneg":
@@ -226,6 +230,10 @@ func c20Queries(c *Ctx) {
 		b := consts[r.Intn(len(consts))]
 		if a.Cmp(b) > 0 {
 			a, b = b, a
+		}
+		if op == 6 && r.Chance(0.08) && a.Cmp(b) != 0 {
+			a, b = b, a // an empty range: the predicate start <= v <= end holds for no value
+			c.Count("query_RANGE_with_start_greater_than_end")
 		}
 		f := founds[r.Intn(len(founds))]
 		w := workers[r.Intn(len(workers))]
@@ -373,12 +381,31 @@ func c20Queries(c *Ctx) {
 		})
 	}
 	// ---- BatchEqual family
-	for q := 0; q < 4 && !c.Failed() && len(m) > 0; q++ {
+	for q := 0; q < 4 && !c.Failed(); q++ {
 		var vals []*big.Int
 		lo, hi := constRange(bc)
 		for i := 0; i < 1+r.Intn(8); i++ {
 			v := consts[r.Intn(len(consts))]
 			vals = append(vals, v)
+		}
+		if r.Chance(0.04) {
+			vals = nil // an empty value list matches nothing
+			c.Count("batchequal_empty_value_list")
+		}
+		if span := new(big.Int).Sub(hi, lo); span.IsInt64() && span.Int64() < 2048 && r.Chance(0.35) {
+			// every representable value of a narrow index (the complete cube), or all but one
+			vals = nil
+			skip := int64(-1)
+			if r.Chance(0.4) {
+				skip = r.Int63n(span.Int64() + 1)
+			}
+			for k := int64(0); k <= span.Int64(); k++ {
+				if k != skip {
+					vals = append(vals, new(big.Int).Add(lo, big.NewInt(k)))
+				}
+			}
+			r.Shuffle(len(vals), func(i, j int) { vals[i], vals[j] = vals[j], vals[i] })
+			c.Count("batchequal_complete_cube_of_a_narrow_index")
 		}
 		if r.Chance(0.3) {
 			// sub-cube: all combinations of 2-3 free low bits around a stored value
@@ -411,9 +438,19 @@ func c20Queries(c *Ctx) {
 		c.Step("BatchEqual(workers=%d, %v)", w, vals)
 		c.Guard(sig, func() {
 			if bc.is64 {
-				got := x.b64.BatchEqualBig(w, vals).ToArray()
+				resB := x.b64.BatchEqualBig(w, vals)
+				got := resB.ToArray()
 				if !equalCols(got, want) {
 					c.Fail(sig+"/BatchEqualBig", "BatchEqualBig(%v) returned %v want %v; map=%s", vals, got, want, m)
+					return
+				}
+				// the returned bitmap belongs to the caller
+				resB.Add(12345678901)
+				if len(got) > 0 {
+					resB.Remove(got[0])
+				}
+				if again := x.b64.BatchEqualBig(w, vals).ToArray(); !equalCols(again, want) {
+					c.Fail(sig+"/BatchEqualBig/result-not-independent", "repeating BatchEqualBig after mutating its result gives %v want %v", again, want)
 					return
 				}
 				if allInt {
@@ -421,9 +458,18 @@ func c20Queries(c *Ctx) {
 					for i, v := range vals {
 						iv[i] = v.Int64()
 					}
-					got := x.b64.BatchEqual(w, iv).ToArray()
+					res := x.b64.BatchEqual(w, iv)
+					got := res.ToArray()
 					if !equalCols(got, want) {
 						c.Fail(sig+"/BatchEqual", "BatchEqual(%v) returned %v want %v; map=%s", iv, got, want, m)
+						return
+					}
+					res.Add(12345678901)
+					if len(got) > 0 {
+						res.Remove(got[0])
+					}
+					if again := x.b64.BatchEqual(w, iv).ToArray(); !equalCols(again, want) {
+						c.Fail(sig+"/BatchEqual/result-not-independent", "repeating BatchEqual after mutating its result gives %v want %v", again, want)
 						return
 					}
 					f := founds[r.Intn(len(founds))]
@@ -468,6 +514,9 @@ func c20Queries(c *Ctx) {
 					return
 				}
 				res.Add(99)
+				if len(got) > 0 {
+					res.Remove(uint32(got[0]))
+				}
 				if got2 := cols32(x.b32.BatchEqual(w, iv)); !equalCols(got2, want) {
 					c.Fail(sig+"/BatchEqual/result-not-independent", "repeating BatchEqual after mutating its result gives %v want %v", got2, want)
 				}
@@ -475,8 +524,11 @@ func c20Queries(c *Ctx) {
 			c.Eval(2)
 		})
 	}
+	if c.Failed() || !checkBSI(c, x, m, x.name()+"/index-changed-by-BatchEqual-result-mutation", nil) {
+		return
+	}
 	// ---- CompareBSI (64-bit)
-	if bc.is64 && !c.Failed() && len(m) > 0 {
+	if bc.is64 && !c.Failed() {
 		o := newBSIX(true, 0, 0)
 		om := bsiModel{}
 		for _, col := range m.cols() {
